@@ -30,7 +30,11 @@ ASSUMPTIONS = [
     "model, whose results are keyed by field name; the out_name lookups inside the coercers are thereby exercised",
     "non-dict Mappings (types.MappingProxyType) occur as values (6% of the generated input-object values): opaque "
     "objects in the model - rejected by coercion, reported by validation; value_to_literal is not compared for them",
-    "not modelled: custom scalars, fragment variables, out_type, max_errors, hide_suggestions, one-shot "
+    "fragment variables (experimental fragment arguments): FragmentVariableValues are built by the implementation's "
+    "get_fragment_variable_values from a generated document; the model runs on the scoped environment (a variable "
+    "declared by the fragment shadows the operation variable of that name whether or not it has a value), computed by "
+    "the harness from .sources/.coerced; nested fragment scopes and replace_variables sources are not modelled",
+    "not modelled: custom scalars, out_type, max_errors, hide_suggestions, one-shot "
     "iterators as values (stateful; see DESIGN.md C15 residual), dict keys that are not str",
     "oracles supplied per case from CPython: float(s) of every Int/Float literal text, str(x) of every float in a "
     "value, sys.get_int_max_str_digits()",
@@ -960,6 +964,27 @@ class Runner:
             vv = e
         return defs, inputs, vv, src
 
+    def fragment_values(self, schema, src, inputs):
+        """(VariableValues, FragmentVariableValues) as the executor builds them for the document
+        `query (..) { ...F(args) }  fragment F(..) on Query { __typename }` (experimental fragment arguments)."""
+        from graphql import parse
+        from graphql.execution.get_variable_signature import get_variable_signature
+        from graphql.execution.values import VariableValues, get_fragment_variable_values, get_variable_values
+        doc = parse(src, experimental_fragment_arguments=True)
+        op, fr = doc.definitions[0], doc.definitions[1]
+        vv = get_variable_values(schema, op.variable_definitions or (),
+                                 {"".join(map(chr, k)): to_py(v, self.reg) for k, v in inputs})
+        if not isinstance(vv, VariableValues):
+            return None
+        sigs = {}
+        for vd in fr.variable_definitions or ():
+            sig = get_variable_signature(schema, vd)
+            if not hasattr(sig, "type"):
+                return None
+            sigs[vd.variable.name.value] = sig
+        spread = op.selection_set.selections[0]
+        return vv, get_fragment_variable_values(spread, sigs, vv)
+
     def literal_cases(self, schema, desc, items):
         """items: [(arg index, lit, defs, inputs, vv)]"""
         from graphql import GraphQLError, parse, validate
@@ -970,13 +995,21 @@ class Runner:
         from graphql.validation import ValuesOfCorrectTypeRule
         ck = self.ck
         cases, metas = [], []
-        for ai, l, defs, inputs, vv in items:
+        for ai, l, defs, inputs, vv, *more in items:
+            frag = more[0] if more else None      # {"fvv": FragmentVariableValues, "src": document text}
             t = desc["args"][ai]
             st = set()
             lit_strings(l, st)
             env = []
             if isinstance(vv, VariableValues):
-                for k, x in vv.coerced.items():
+                # the environment a variable is looked up in: a variable DECLARED by the fragment (a key of .sources)
+                # shadows the operation variable of that name, with or without a value
+                scoped = dict(vv.coerced)
+                if frag is not None:
+                    for k in frag["fvv"].sources:
+                        scoped.pop(k, None)
+                    scoped.update(frag["fvv"].coerced)
+                for k, x in scoped.items():
                     sx = py_to_spec(unrename(x))
                     if sx is None:
                         env = None
@@ -987,9 +1020,10 @@ class Runner:
             else:
                 vvu = vv
             cases.append([11] + self.header(desc, st, []) + env_wire(env) + type_wire(t) + lit_wire(l))
-            metas.append((ai, t, l, vvu, env, defs, inputs))
+            metas.append((ai, t, l, vvu, env, defs, inputs, frag))
         outs = self.m.run_batch(cases)
-        for (ai, t, l, vv, env, defs, inputs), out in zip(metas, outs):
+        for (ai, t, l, vv, env, defs, inputs, frag), out in zip(metas, outs):
+            fvv = frag["fvv"] if frag is not None and vv is not None else None
             r = Rd(out)
             try:
                 m_co = rd_result(r.block(), lambda b: b.val())
@@ -1005,30 +1039,33 @@ class Runner:
                 rk = "float-literal-overflow"
                 ck.count("literal_with_overflowing_float")
             rep = {"schema": desc, "type": t, "lit": l, "env": env}
+            if fvv is not None:
+                rep.update(fragment_document=frag["src"], inputs=inputs)
+                ck.count("literal_with_fragment_variables")
             if m_co[0] == "fuel" or m_rt is None or m_st is None:
                 ck.count("model_out_of_fuel")
                 continue
             ty = impl_type(schema, t)
             node = lit_to_ast(l)
 
-            def coerce(vvx):
+            def coerce(vvx, fx=None):
                 try:
-                    c = coerce_input_literal(node, ty, vvx)
+                    c = coerce_input_literal(node, ty, vvx, fx)
                     return ("invalid",) if c is Undefined else ("good", unrename(c))
                 except TypeError:
                     return ("crash",)
                 except Exception as e:  # noqa: BLE001
                     return ("raised", type(e).__name__)
 
-            def validate_l(vvx):
+            def validate_l(vvx, fx=None):
                 ps = []
                 try:
-                    validate_input_literal(node, ty, lambda e, p: ps.append(list(p)), vvx)
+                    validate_input_literal(node, ty, lambda e, p: ps.append(list(p)), vvx, fx)
                     return ("ok", ps)
                 except Exception as e:  # noqa: BLE001
                     return ("raised", type(e).__name__)
 
-            co, rt, stv, c0 = coerce(vv), validate_l(vv), validate_l(None), coerce(None)
+            co, rt, stv, c0 = coerce(vv, fvv), validate_l(vv, fvv), validate_l(None), coerce(None)
             const = not has_var(l)
             ck.note_case(("lit", key), nontrivial=l[0] != "null",
                          sample={"type": type_sdl(t), "literal": lit_text(l), "variables": env} if len(key) < 300 else None)
@@ -1107,7 +1144,7 @@ class Runner:
             if not (cmp_co("coerce_input_literal(no variables)", c0, m_c0) and cmp_paths("validate_input_literal(static)", stv, m_st)):
                 continue
             # ---- the argument as the resolver receives it (get_argument_values / coerce_argument)
-            if vv is not None and getattr(self, "schema_valid", True):
+            if vv is not None and fvv is None and getattr(self, "schema_valid", True):
                 from graphql import execute_sync
                 src = ("query (" + " ".join(f"${n}: {type_sdl(vt)}" + (f" = {lit_text(d)}" if d is not None else "")
                                             for n, vt, d in defs) + ") " if defs else "") + "{ f%d(x: %s) }" % (ai, lit_text(l))
@@ -1293,8 +1330,84 @@ def run_schema(R, gen, desc, n_val, n_lit, n_var):
                     _, _, vv, _ = R.variables_fixed(schema, defs, inputs)
                     lits.append((ai, ["object", [[fn, ["var", "a"]]]], defs, inputs, vv))
                     ck.count("oneof_member_from_variable")
+    lits += fragment_scenarios(R, gen, schema, desc, 6 if n_lit <= 60 else 12)
     R.literal_cases(schema, desc, lits)
     R.variable_cases(schema, desc, vars_items)
+
+
+def strip_nn(t):
+    return t[1] if t[0] == "nn" else t
+
+
+def fragment_scenarios(R, gen, schema, desc, n):
+    """literal cases under fragment variables (experimental fragment arguments) that shadow operation variables:
+    each fragment variable is absent (declared, no argument, no default), null, a value, defaulted, or fed by an
+    operation variable; literals use the variables at the top, in lists and in object fields."""
+    from graphql import GraphQLError
+    r, ck = gen.r, R.ck
+    out = []
+    for _ in range(n):
+        opdefs, inputs = [], []
+        for name in r.sample(["a", "b", "c"], r.randrange(1, 4)):
+            t = strip_nn(r.choice(desc["args"]))
+            opdefs.append([name, t, None])
+            if r.random() < 0.85:
+                inputs.append([cps(name), gen.value(desc, ["nn", t], 2, valid=True) if r.random() < 0.8 else ["none"]])
+        fdefs, fargs = [], []
+        for name, t, _ in opdefs + ([["f", strip_nn(r.choice(desc["args"])), None]] if r.random() < 0.4 else []):
+            if r.random() < 0.2:
+                continue                      # not shadowed
+            ft = t if r.random() < 0.8 else strip_nn(r.choice(desc["args"]))
+            state = r.choice(["absent", "absent", "null", "value", "default", "opvar"])
+            dflt = None
+            if state == "default":
+                dflt = gen.lit(desc, ft, 2, [], valid=True)
+                if dflt is None or has_var(dflt) or overflowing(dflt):
+                    dflt, state = None, "absent"
+            if state == "null":
+                fargs.append(f"{name}: null")
+            elif state == "value":
+                lv = gen.lit(desc, ["nn", ft], 2, [], valid=True)
+                if lv is not None and not has_var(lv) and not overflowing(lv):
+                    fargs.append(f"{name}: {lit_text(lv)}")
+            elif state == "opvar":
+                fargs.append(f"{name}: ${r.choice(opdefs)[0]}")
+            fdefs.append([name, ft, dflt])
+        if not fdefs:
+            continue
+        src = ("query (" + " ".join(f"${n_}: {type_sdl(t)}" for n_, t, _ in opdefs) + ") { ...F"
+               + ("(" + ", ".join(fargs) + ")" if fargs else "") + " } fragment F("
+               + " ".join(f"${n_}: {type_sdl(t)}" + (f" = {lit_text(d)}" if d is not None else "") for n_, t, d in fdefs)
+               + ") on Query { __typename }")
+        try:
+            got = R.fragment_values(schema, src, inputs)
+        except (GraphQLError, TypeError):
+            got = None
+        except Exception as e:  # noqa: BLE001
+            ck.violation("fragvars:" + src[:300], f"building fragment variable values raised {type(e).__name__} for {src}",
+                         {"relation": "fragment variable values", "schema": desc, "fragment_document": src, "inputs": inputs})
+            got = None
+        if got is None:
+            ck.count("fragment_scenarios_skipped")
+            continue
+        vv, fvv = got
+        frag = {"fvv": fvv, "src": src}
+        names = [d[0] for d in opdefs] + [d[0] for d in fdefs]
+        for ai, t in enumerate(desc["args"]):
+            base = strip_nn(t)
+            x = r.choice(fdefs)[0]
+            cand = [gen.lit(desc, t, 3, names, valid=True), ["var", x]]
+            if base[0] == "l":
+                cand += [["list", [["var", x]]], ["list", [["var", x], ["var", r.choice(names)]]]]
+            else:
+                for iname, _oneof, fields in desc["inputs"]:
+                    if base == ["n", iname]:
+                        fn = r.choice(fields)[0]
+                        cand.append(["object", [[fn, ["var", x]]]])
+            for l in cand:
+                if l is not None:
+                    out.append((ai, l, opdefs, inputs, vv, frag))
+    return out
 
 
 def echo(ck, m, gen, desc):
@@ -1368,6 +1481,12 @@ def replay_dict(R, d):
         if t not in desc["args"]:
             desc["args"].append(t)
             schema = build_impl_schema(desc)
+        if d.get("fragment_document"):
+            got = R.fragment_values(schema, d["fragment_document"], d.get("inputs") or [])
+            if got is not None:
+                R.literal_cases(schema, desc, [(desc["args"].index(t), d["lit"], [], d.get("inputs") or [], got[0],
+                                                {"fvv": got[1], "src": d["fragment_document"]})])
+            return
         env = d.get("env") or []
         vv = None
         if env is not None:
